@@ -109,6 +109,7 @@ def spStep (m : Sim) : Option Sim :=
     (app m (.spCnt2 m.jam)).map fun m1 =>
       let (m2, p) := arrive m1 "tryspawn"; if p then { m2 with parkedSp := true } else m2
   | .computed _ => if m.parkedSp then none else app m .spRead
+  | .enter _ => app m .spInit
   | .loop _ _ =>
     (app m .spGen).map fun m1 => if m1.s.workers.length > m.s.workers.length then { m1 with jam := false } else m1
   | .sleep => app m .spSleep
